@@ -48,6 +48,14 @@ Theorem C10_rule_removal_not_held :
               forall rf, In rf (fit_rules (i_fit inp)) -> ~ In (p_id o) (map p_id (rf_peers rf)).
 Proof. exact rule_removal_not_held. Qed.
 
+(* ... and fit_wf is what the check establishes: on every rule-checker case on which the monitor is silent, a removal the model admits
+   takes a peer no rule holds *)
+Theorem C10_monitor_silent_removal_not_held :
+  forall inp impl st s, monitor (inp, impl) = None -> fit_judged inp = true -> In (Some (st, ARemove s)) (rule_check inp) ->
+    exists o, In o (fit_orphans (i_fit inp)) /\ p_store o = s /\
+              forall rf, In rf (fit_rules (i_fit inp)) -> ~ In (p_id o) (map p_id (rf_peers rf)).
+Proof. exact monitor_silent_removal_not_held. Qed.
+
 (* ... and the same through CheckerController.CheckRegion (joint-state checker and learner checker in front) *)
 Theorem C10_controller_removes_only_justified :
   forall inp st s, In (Some (st, ARemove s)) (controller_check inp) ->
@@ -125,6 +133,7 @@ Print Assumptions C10_checker_targets_good.
 Print Assumptions C10_replica_removes_only_surplus.
 Print Assumptions C10_rule_removes_only_orphans.
 Print Assumptions C10_rule_removal_not_held.
+Print Assumptions C10_monitor_silent_removal_not_held.
 Print Assumptions C10_controller_removes_only_justified.
 Print Assumptions C10_controller_origin.
 Print Assumptions C10_merge_only_when_settled.
